@@ -25,6 +25,8 @@ type FnResult struct {
 	Externs     []string      `json:"externs,omitempty"`
 	DefaultPure []string      `json:"default_pure,omitempty"`
 	Secs        float64       `json:"secs"`
+	Vacuous     string        `json:"vacuous,omitempty"`
+	DeadReturns []string      `json:"dead_returns,omitempty"`
 }
 
 type RunOpts struct {
@@ -88,6 +90,22 @@ func verifyOne(P *Program, S *Specs, E *Effects, fn *ssa.Function, o RunOpts) (r
 		g.Discharge(o.WorkDir, o.TimeoutMs, o.Keep)
 	}
 	res.Obligations = g.obs
+	nret, dead := 0, 0
+	for _, c := range g.covers {
+		if c.Name == "entry" && c.Status == "unsat" {
+			res.Vacuous = "preconditions and global assumptions of " + g.name + " are contradictory"
+		}
+		if strings.HasPrefix(c.Name, "return") {
+			nret++
+			if c.Status == "unsat" {
+				dead++
+				res.DeadReturns = append(res.DeadReturns, c.Name)
+			}
+		}
+	}
+	if nret > 0 && dead == nret && res.Vacuous == "" {
+		res.Vacuous = "no return of " + g.name + " is reachable under the assumed contracts (contradictory assumptions)"
+	}
 	for a := range g.assumptions {
 		res.Assumptions = append(res.Assumptions, a)
 	}
@@ -186,7 +204,10 @@ func main() {
 					nd++
 				}
 			}
-			fmt.Printf("%-60s %3d/%3d  %.1fs %s\n", r.Fn, nd, len(r.Obligations), r.Secs, r.Error)
+			fmt.Printf("%-60s %3d/%3d  %.1fs %s %s\n", r.Fn, nd, len(r.Obligations), r.Secs, r.Error, r.Vacuous)
+			if len(r.DeadReturns) > 0 && *verbose {
+				fmt.Printf("    dead returns: %v\n", r.DeadReturns)
+			}
 			for _, ob := range r.Obligations {
 				if ob.Status != "unsat" || *verbose {
 					mark := "FAIL"
